@@ -460,6 +460,42 @@ fn m5(cfg: &Cfg, log: &mut Log) {
   }
 }
 
+/// M6: the very first library call of a fresh thread (thread-local or per-thread lazily initialised
+/// state has its initial value) must answer like a warm thread.  Range extremes are included because
+/// an "empty" initial value tends to coincide with the first element of a range.
+fn m6(cfg: &Cfg, pool: &[Q], cold: &BTreeMap<Q, String>, log: &mut Log) {
+  let c = cal();
+  let mut qs: Vec<Q> = vec![
+    Q::Month(0, 1), Q::Month(0, 2), Q::Month(0, 12), Q::Month(1, 1), Q::Month(9999, 12), Q::Month(9999, 1), Q::YearMonths(0), Q::YearMonths(1), Q::YearMonths(9999),
+    Q::LunarToSolar(0, 11, 18), Q::LunarToSolar(9999, 12, 2), Q::LunarToSolar(0, 12, 1), Q::SolarToLunar(c.dn(9999, 12, 31)), Q::SolarToLunar(c.dn(30, 1, 1)), Q::SolarToLunar(c.dn(2000, 1, 1)),
+    Q::SixtyDay(c.dn(30, 1, 1)), Q::SixtyDay(c.dn(9998, 12, 31)), Q::Festival(30, 0), Q::Festival(9998, 12), Q::EightChar(c.dn(30, 1, 1) * 86400), Q::EightChar(c.dn(9998, 12, 31) * 86400 + 86399),
+    Q::ChildLimit(c.dn(30, 6, 1) * 86400, true), Q::ChildLimit(c.dn(9900, 6, 1) * 86400, false), Q::MonthNext(0, 1, 1), Q::MonthNext(9999, 12, -1),
+  ];
+  let mut rng = Rng::new(mix(cfg.seed, 0x6C10));
+  for _ in 0..cfg.tier.pick(60, 600) {
+    qs.push(rng.pick(pool).clone());
+  }
+  for q in qs {
+    // warm-thread cold-cache reference (this thread has made thousands of calls already)
+    let want = match cold.get(&q) {
+      Some(a) => a.clone(),
+      None => {
+        lhook::lunar_month_cache_reset();
+        q.answer()
+      }
+    };
+    lhook::lunar_month_cache_reset();
+    let q2 = q.clone();
+    let got = std::thread::spawn(move || q2.answer()).join().unwrap_or_else(|_| "THREAD-PANIC".into());
+    log.ev(1);
+    log.nt(1);
+    log.count("m6.first_calls_on_a_fresh_thread", 1);
+    if got != want {
+      log.violate(format!("C10/fresh-thread/{}", fnv(&q.show()) % 100000), "first call on a fresh thread", q.show(), got, format!("{} (same query on a warm thread, cold cache)", want));
+    }
+  }
+}
+
 /// digest of the answers of the query list in the given order (fresh process)
 fn digest_in_order(qs: &[Q], order: &[usize], threaded: bool) -> Vec<(usize, u64)> {
   let mut out: Vec<(usize, u64)> = Vec::with_capacity(qs.len());
@@ -658,6 +694,7 @@ pub fn run(cfg: &Cfg) -> (Log, Meta) {
   m1(cfg, &p, &cold, &mut log);
   m2(cfg, &p, &cold, &mut log);
   m5(cfg, &mut log);
+  m6(cfg, &p, &cold, &mut log);
   m4(cfg, &mut log);
   if cfg.tier == Tier::Thorough {
     m3_miri(cfg, &mut log);
@@ -672,9 +709,10 @@ pub fn run(cfg: &Cfg) -> (Log, Meta) {
   log.floor("m4.fresh_processes", 3);
   log.floor("m4.answers_compared", 4_000);
   log.floor("m5.values", cfg.tier.pick(100, 5_000));
+  log.floor("m6.first_calls_on_a_fresh_thread", 50);
   let meta = Meta {
     rule: format!(
-      "pool of {} distinct valid queries (lunar months incl. the digit-colliding label pairs (Y,11)/(10Y+1,1), (Y,12)/(10Y+1,2), year month lists, both conversions, sexagenary days, festivals, eight characters, child limits, month stepping) and {} kinds of refused request; reference = cold answer after the guarded cache reset. M1: every collision pair in 4 orders; refusal of every kind at every position of {} short histories (length 1..6){}; {} random histories of 50..400 queries (30% collision labels, 10% refusals) - every answer equals its cold answer, no lock poisoned. M2: {} rounds of 16 barrier-released threads on overlapping shuffled slices (120 of 160 queries each, refusals in every 4th thread), alternating cold/warm start and 0/50 injected yields between cache lookup and insert; double-computes counted from the hook (a run with none is inconclusive). M4: {} fresh processes answer the same 2,011-query list in different orders (the last ones on 8 threads). M5: per-value memos of LunarDay/LunarHour on clones taken before/after the first derived call. {} distinct_nontrivial = distinct histories, rounds, process pairs.",
+      "pool of {} distinct valid queries (lunar months incl. the digit-colliding label pairs (Y,11)/(10Y+1,1), (Y,12)/(10Y+1,2), year month lists, both conversions, sexagenary days, festivals, eight characters, child limits, month stepping) and {} kinds of refused request; reference = cold answer after the guarded cache reset. M1: every collision pair in 4 orders; refusal of every kind at every position of {} short histories (length 1..6){}; {} random histories of 50..400 queries (30% collision labels, 10% refusals) - every answer equals its cold answer, no lock poisoned. M2: {} rounds of 16 barrier-released threads on overlapping shuffled slices (120 of 160 queries each, refusals in every 4th thread), alternating cold/warm start and 0/50 injected yields between cache lookup and insert; double-computes counted from the hook (a run with none is inconclusive). M4: {} fresh processes answer the same 2,011-query list in different orders (the last ones on 8 threads). M5: per-value memos of LunarDay/LunarHour on clones taken before/after the first derived call. M6: 25 range-extreme queries and a sample of the pool, each as the very first library call of a fresh thread on a cold cache. {} distinct_nontrivial = distinct histories, rounds, process pairs.",
       p.len(),
       refusals().len(),
       cfg.tier.pick(12, 120),
